@@ -1,6 +1,6 @@
 (* C11 — assembly: the full theorem, zix_normal s = std_normal s (as text) for every C string. *)
 From Coq Require Import ZArith List Bool Lia ZifyBool.
-From Zix Require Import PathNormSpec PathNormModel PathNormProofsSpec PathNormProofsModel PathNormProofsDD PathNormProofsTail.
+From Zix Require Import PathNormSpec PathNormModel PathNormProofsSpec PathNormProofsModel PathNormProofsDD PathNormProofsTail PathNormProofsLen.
 Import ListNotations.
 Local Open Scope Z_scope.
 
@@ -311,4 +311,12 @@ Lemma zix_normal_idem_all : forall s, c_string s -> Z.of_nat (length s) + 2 < W6
 Proof.
   intros s Hc HW HW'. unfold zix_normal at 2 3. rewrite (zix_normal_all s Hc HW).
   unfold zix_normal. rewrite (zix_normal_all _ (std_normal_c_string s Hc) HW'). apply std_normal_idem.
+Qed.
+
+(* the result is never longer than the input, so the second call's allocation fits as well *)
+Lemma zix_normal_idem_full : forall s, c_string s -> Z.of_nat (length s) + 2 < W64 ->
+  zix_normal (zix_normal s) = zix_normal s.
+Proof.
+  intros s Hc HW. apply zix_normal_idem_all; [exact Hc|exact HW|].
+  pose proof (std_normal_length s). lia.
 Qed.
